@@ -321,7 +321,9 @@ pub fn render_trace(trace: &[(u8, &'static str)]) -> String {
 pub struct ExecConfig {
     /// A running worker that neither parks nor finishes within this time is a
     /// machinery error (a yield point placed under a real lock, or an endless
-    /// loop) — the process exits with code 2.
+    /// loop) — the process exits with code 2. Default 60 s (a heavily
+    /// overloaded box has been seen to delay a fresh worker thread by > 10 s);
+    /// override with `VERIF_THREAD_WATCHDOG_S`.
     pub watchdog: Duration,
     pub max_steps: usize,
 }
@@ -331,7 +333,7 @@ impl Default for ExecConfig {
         let secs = std::env::var("VERIF_THREAD_WATCHDOG_S")
             .ok()
             .and_then(|v| v.parse::<u64>().ok())
-            .unwrap_or(10);
+            .unwrap_or(60);
         ExecConfig {
             watchdog: Duration::from_secs(secs),
             max_steps: 100_000,
@@ -440,8 +442,11 @@ impl Drop for PoolWorker {
     fn drop(&mut self) {
         {
             let mut g = self.mb.mail.lock();
-            while !matches!(*g, Mail::Idle) {
-                self.mb.cv.wait(&mut g);
+            if !matches!(*g, Mail::Idle) {
+                // Only on the machinery-error path (`process::exit` runs this
+                // thread's TLS destructors while a job is still parked):
+                // never wait for it, detach the worker.
+                return;
             }
             *g = Mail::Shutdown;
             self.mb.cv.notify_all();
@@ -556,12 +561,16 @@ pub fn run_threads_observed<'a, T: Send + 'a>(
             while !g.done {
                 if shared.ctl.wait_for(&mut g, cfg.watchdog).timed_out() && !g.done {
                     if g.progress == seen {
-                        crate::report::machinery(&format!(
-                            "THREAD watchdog: worker {:?} neither parked nor finished within {:?}; trace so far: {}",
+                        let msg = format!(
+                            "THREAD watchdog: worker {:?} neither parked nor finished within {:?} (arrived: {}/{}); trace so far: {}",
                             g.running,
                             cfg.watchdog,
+                            g.slots.iter().filter(|s| s.st != St::Spawning).count(),
+                            g.slots.len(),
                             render_trace(&g.trace)
-                        ));
+                        );
+                        drop(g);
+                        crate::report::machinery(&msg);
                     }
                     seen = g.progress;
                 }
